@@ -103,7 +103,7 @@ func c19Gen(t *rapid.T) c19In {
 		if in.Bool1 {
 			n = 16
 		}
-		in.B1, in.B2 = gen.Fill(t, "saddr", n), gen.Fill(t, "eaddr", n)
+		in.B1, in.B2 = gen.Addr(t, "saddr", n), gen.Addr(t, "eaddr", n)
 	case "Delete":
 		if in.Bool1 {
 			for i := rapid.IntRange(0, 20).Draw(t, "nspi"); i > 0; i-- {
